@@ -67,6 +67,11 @@ func runLeakCase(c lkCase, bin, base string) map[string]interface{} {
 	wire, mux := protoSets(c.Proto)
 	marker := filepath.Join(base, c.Name+".marker")
 	pc := &vp.PluginCfg{LegacyVersion: 1, Legacy: &vp.SetCfg{Proto: wire, Tag: "1"}, GRPCServer: wire == "grpc", Marker: marker}
+	for _, op := range c.Ops {
+		if op == "accept_during_shutdown" && wire == "grpc" {
+			pc.OnShutdownServe = 699
+		}
+	}
 	hc := &vp.HostCfg{LegacyVersion: 1, Legacy: &vp.SetCfg{Proto: "grpc", Tag: "1"}, Allowed: []string{"netrpc", "grpc"}, Mux: mux, TLS: c.TLS, Launch: c.Launch, TempDir: tmp}
 	p := vp.NewPair(bin, hc, pc, nil, nil)
 	stub, cp, err := p.Dispense()
